@@ -171,6 +171,22 @@ Proof.
   - intros ops. exact (treebidimap_abstract_agrees OK OV sK sV zeroK zeroV ops).
 Qed.
 
+(* every comparator shape the correspondence check evaluates (the built-in three-valued comparator and k * (a - b),
+   k <> 0, on the key numbers) satisfies the premises of the tree theorems above: the evaluated cases are covered *)
+Theorem C09_comparator_shapes : forall c, cmpsel_ok c = true -> CmpLaws (cmp_of c) /\ separates (cmp_of c).
+Proof.
+  intros [|k] H; cbn [cmp_of cmpsel_ok] in *.
+  - split; [exact VF.C01.Order.zcmp_laws|]. intros a b. change (VF.C01.Order.zcmp a b = 0%Z -> a = b). unfold VF.C01.Order.zcmp.
+    destruct (Z.eqb_spec a b); [auto|]. destruct (a >? b)%Z; discriminate.
+  - apply negb_true_iff, Z.eqb_neq in H. split.
+    + assert (Hk : (k < 0 \/ 0 < k)%Z) by lia.
+      constructor; unfold cmp_of.
+      * intros a b. replace ((b - a) * k)%Z with (- ((a - b) * k))%Z by ring. lia.
+      * intros a b. replace ((b - a) * k)%Z with (- ((a - b) * k))%Z by ring. lia.
+      * intros a b c H1 H2. replace ((a - c) * k)%Z with ((a - b) * k + (b - c) * k)%Z by ring. lia.
+    + intros a b E. unfold cmp_of in E. apply Z.mul_eq_0 in E. lia.
+Qed.
+
 (* the sorted-insertion tables stay strictly sorted (so their Keys()/Values() are ordered) *)
 Theorem C09_tree_sorted : forall (K V : Type) (keqb : K -> K -> bool) (veqb : V -> V -> bool),
   (forall a b, keqb a b = true <-> a = b) -> (forall a b, veqb a b = true <-> a = b) ->
@@ -225,6 +241,7 @@ Print Assumptions C09_bidi.
 Print Assumptions C09_algebra.
 Print Assumptions C09_algebra_linked.
 Print Assumptions C09_linked_set_inv.
+Print Assumptions C09_comparator_shapes.
 Print Assumptions C09_tree_sorted.
 Print Assumptions C09_treeset.
 Print Assumptions C09_treebidimap.
